@@ -26,6 +26,13 @@ def h64(s):
 def main():
     modname = sys.argv[1]
     out = sys.stdout
+    cov = None
+    if os.environ.get("VERIF_COV"):
+        # blind-spot analysis (development aid, not part of any verdict): line coverage of the code under test
+        import coverage
+        cov = coverage.Coverage(data_file=os.path.join(os.environ["VERIF_COV"], "cov"), data_suffix=True, branch=True,
+                                include=[os.path.join(os.environ.get("VERIF_REPO") or "/repo", "cloudsync", "*")])
+        cov.start()
     sys.stdout = sys.stderr       # anything the code under test prints must not corrupt the protocol
     mod = importlib.import_module(modname)
     from symx import core
@@ -107,6 +114,9 @@ def main():
             resp["smt"] = dump[:req.get("smt_dump")]
         out.write(json.dumps(resp, default=str) + "\n")
         out.flush()
+    if cov is not None:
+        cov.stop()
+        cov.save()
 
 
 def _short(x, n=600):
